@@ -1,5 +1,789 @@
 package main
 
-var c02Table = map[string]triage{}
+// Triage table of the block-path failure origins (C02) — confirmed by reading.
+// Key = "<function> # <kind>:<descriptor>" (no line numbers). Classes:
+//   linked          unreachable because of a structural fact that c02Links checks
+//   infrastructure  store / codec / iterator fault, not inducible by transactions
+//   library         contract of an external library for constant, well-typed arguments
+//   accepted        relies on an invariant of another module (bank, staking) or on an
+//                   assumption; this is the residual risk of the property, stated in DESIGN.md
+//   DEFECT          genuinely reachable: reported as a violation (see known_findings.json)
 
-func c02Links(r *Result) {}
+import (
+	"fmt"
+	"go/token"
+	"strings"
+
+	"golang.org/x/tools/go/ssa"
+)
+
+var c02Table = map[string]triage{
+	// ---- PreBlocker
+	`(*app.ProposalHandler).PreBlocker # err-local:errors.New "failed to decode injected vote extension tx"`: {"accepted", "the same bytes were decoded by ProcessProposal on +2/3 of the voting power before the block could be finalised (C17 PROC-COVERS-PRE)"},
+	`(*app.ProposalHandler).PreBlocker # index:app.OracleAttestations.Attestations[loopvar]`:                 {"linked", "parallel list built in lock-step with OperatorAddresses by CheckOracleAttestationsFromLastCommit and compared by ProcessProposal (C17 SIBLINGS/LOCKSTEP)"},
+	`(*app.ProposalHandler).PreBlocker # index:app.OracleAttestations.Snapshots[loopvar]`:                    {"linked", "as above (C17 LOCKSTEP)"},
+	`(*app.ProposalHandler).PreBlocker # index:app.ValsetSignatures.Signatures[loopvar]`:                     {"linked", "parallel list built in lock-step by CheckValsetSignaturesFromLastCommit (C17 LOCKSTEP)"},
+	`(*app.ProposalHandler).PreBlocker # index:app.ValsetSignatures.Timestamps[loopvar]`:                     {"linked", "as above (C17 LOCKSTEP)"},
+	`(*app.ProposalHandler).SetEVMAddresses # index:param3[loopvar]`:                                         {"linked", "evmAddresses is the parallel list of operatorAddresses built in lock-step by CheckInitialSignaturesFromLastCommit (C17 LOCKSTEP)"},
+
+	// ---- bridge EndBlock
+	`(x/bridge/keeper.Keeper).CompareAndSetBridgeValidators # must:iface:github.com/cosmos/cosmos-sdk/codec.BinaryCodec.MustMarshal`: {"library", "MustMarshal of an in-memory proto message (BridgeValidatorSet) cannot fail"},
+	`(x/bridge/keeper.Keeper).CalculateValidatorSetCheckpoint # err-ext:(github.com/ethereum/go-ethereum/accounts/abi.Arguments).Pack`: {"library", "Pack of ([32]byte, *big.Int, *big.Int, [32]byte) against (bytes32,uint256,uint256,bytes32): Go types fixed in the function (C15 ABI)"},
+	`(x/bridge/keeper.Keeper).CalculateValidatorSetCheckpoint # err-ext:github.com/ethereum/go-ethereum/accounts/abi.NewType`:          {"library", "NewType of a constant elementary ABI type string (checked: ABI-CONST-TYPES)"},
+	`(x/bridge/keeper.Keeper).EncodeAndHashValidatorSet # err-ext:(github.com/ethereum/go-ethereum/accounts/abi.Arguments).Pack`:        {"library", "Pack of (common.Address, *big.Int) against (address,uint256)"},
+	`(x/bridge/keeper.Keeper).EncodeAndHashValidatorSet # err-ext:github.com/ethereum/go-ethereum/accounts/abi.NewType`:                 {"library", "constant elementary ABI type string (ABI-CONST-TYPES)"},
+	`(x/bridge/keeper.Keeper).EncodeOracleAttestationData # err-ext:(github.com/ethereum/go-ethereum/accounts/abi.Arguments).Pack`:      {"library", "Pack of fixed Go types against the 9-argument list (C15 ABI)"},
+	`(x/bridge/keeper.Keeper).EncodeOracleAttestationData # err-ext:github.com/ethereum/go-ethereum/accounts/abi.NewType`:               {"library", "constant elementary ABI type string (ABI-CONST-TYPES)"},
+	`(x/bridge/keeper.Keeper).EncodeOracleAttestationData # err-ext:encoding/hex.DecodeString`:                                          {"linked", "the constant domain separator is valid hex; the report value was validated as hex by ValidateValue before it was stored and is parsed here through the same 0x-stripping normaliser (VALUE-NORMALISED)"},
+	`(x/bridge/keeper.Keeper).CreateSnapshot # err-local:errors.New "too many external requests"`:                                      {"linked", "only under isExternalRequest; the block-path call site passes the constant false (SNAPSHOT-INTERNAL)"},
+	`(x/bridge/keeper.Keeper).CreateSnapshot # err-ext:coll:x/bridge/keeper.Keeper.AttestRequestsByHeightMap.Get`:                      {"linked", "read after Has/Set of the same key in the same function (SET-BEFORE-GET)"},
+	`(x/bridge/keeper.Keeper).CreateSnapshot # err-ext:coll:x/bridge/keeper.Keeper.AttestSnapshotsByReportMap.Get`:                     {"linked", "read after Has/Set of the same key in the same function (SET-BEFORE-GET)"},
+	`(x/bridge/keeper.Keeper).CreateSnapshot # err-ext:coll:x/bridge/keeper.Keeper.BridgeValset.Get`:                                   {"accepted", "BridgeValset is written by CompareAndSetBridgeValidators, which the end blocker runs (and requires to succeed) before any snapshot in the same block"},
+	`(x/bridge/keeper.Keeper).CreateSnapshot # err-ext:coll:x/bridge/keeper.Keeper.SnapshotLimit.Get`:                                  {"accepted", "SnapshotLimit is written in InitGenesis (GENESIS-WRITES) and never removed"},
+	`(x/bridge/keeper.Keeper).GetValidatorCheckpointFromStorage # err-ext:coll:x/bridge/keeper.Keeper.ValidatorCheckpoint.Get`:         {"accepted", "ValidatorCheckpoint is written by SetBridgeValidatorParams in the same cohort as BridgeValset, earlier in the same end blocker"},
+	`(x/bridge/keeper.Keeper).GetCurrentValidatorsEVMCompatible # err-ext:iface:x/bridge/types.StakingKeeper.GetAllValidators`:         {"infrastructure", "staking store iteration"},
+	`(x/bridge/keeper.Keeper).GetCurrentValidatorsEVMCompatible # err-local:errors.New "no validators found"`:                          {"DEFECT", "D5: when no validator with a registered EVM address has non-zero consensus power, the bridge end blocker returns this error at every height > 1"},
+	`(x/bridge/keeper.Keeper).GetValidatorSetTimestampBefore # err-local:fmt.Errorf "no validator set timestamp found before %d"`:      {"accepted", "called with the current block time after a checkpoint exists (LastSavedValidatorSetStale runs after BridgeValset.Get succeeded); checkpoint params are written in the same cohort as the saved set"},
+	`(x/bridge/keeper.Keeper).SetBridgeValidatorParams # err-ext:coll:x/bridge/keeper.Keeper.BridgeValsetByTimestampMap.Get`:          {"accepted", "previous set read through IdxMap[idx-1]; written by an earlier execution of this same function (same cohort)"},
+	`(x/bridge/keeper.Keeper).SetBridgeValidatorParams # err-ext:coll:x/bridge/keeper.Keeper.LatestCheckpointIdx.Get`:                 {"accepted", "written by CalculateValidatorSetCheckpoint earlier in this function"},
+	`(x/bridge/keeper.Keeper).SetBridgeValidatorParams # err-ext:coll:x/bridge/keeper.Keeper.ValidatorCheckpointIdxMap.Get`:           {"accepted", "index idx-1 was written by the previous checkpoint (same cohort)"},
+	`(x/oracle/keeper.Keeper).GetAggregateByTimestamp # err-ext:coll:x/oracle/keeper.Keeper.Aggregates.Get`:                            {"accepted", "the timestamp was just obtained from GetTimestampBefore on the same store in CreateNewReportSnapshots"},
+	`(x/oracle/keeper.Keeper).GetAggregatedReportsByHeight # panic:(*cosmossdk.io/collections/indexes.Multi).MatchExact()#1`:           {"infrastructure", "panics only on a store iterator error"},
+	`(x/oracle/keeper.Keeper).GetAggregatedReportsByHeight # panic:cosmossdk.io/collections/indexes.CollectKeyValues()#1`:               {"infrastructure", "panics only on a store iterator error"},
+	`(x/oracle/keeper.Keeper).GetTimestampAfter # panic:(*cosmossdk.io/collections.IndexedMap).Walk()`:                                  {"infrastructure", "panics only on a store iterator error (the walk callback returns no error)"},
+	`(x/oracle/keeper.Keeper).GetTimestampBefore # panic:(*cosmossdk.io/collections.IndexedMap).Walk()`:                                 {"infrastructure", "panics only on a store iterator error (the walk callback returns no error)"},
+
+	// ---- dispute BeginBlock
+	`x/dispute.CheckClosedDisputesForExecution # err-ext:coll:x/dispute/keeper.Keeper.Disputes.Get`: {"accepted", "key just read from the Disputes map's own PendingExecution index"},
+	`x/dispute.CheckOpenDisputesForExpiration # err-ext:coll:x/dispute/keeper.Keeper.Disputes.Get`:  {"accepted", "key just read from the Disputes map's own OpenDisputes index"},
+	`x/dispute.CheckOpenDisputesForExpiration # err-ext:coll:x/dispute/keeper.Keeper.Votes.Get`:     {"linked", "a dispute is stored with status Voting only on paths that also call SetStartVote (VOTING-HAS-VOTE)"},
+	`(x/dispute/keeper.Keeper).ExecuteVote # err-ext:coll:x/dispute/keeper.Keeper.Disputes.Get`:     {"accepted", "id comes from the Disputes index"},
+	`(x/dispute/keeper.Keeper).ExecuteVote # err-ext:coll:x/dispute/keeper.Keeper.Votes.Get`:        {"linked", "PendingExecution is set only by TallyVote, which reads the vote first (PENDING-IMPLIES-TALLIED)"},
+	`(x/dispute/keeper.Keeper).ExecuteVote # err-ext:iface:x/dispute/types.BankKeeper.BurnCoins`:    {"accepted", "burns at most BurnAmount, which was paid into the dispute escrow (C13 conservation; numeric, not decided)"},
+	`(x/dispute/keeper.Keeper).ExecuteVote # err-local:errors.New "can't execute, dispute not resolved"`: {"linked", "reached from the hook only under BlockTime > DisputeEndTime or status Resolved; with a tallied vote the first branch then sets Resolved (PENDING-IMPLIES-TALLIED)"},
+	`(x/dispute/keeper.Keeper).ExecuteVote # err-local:errors.New "vote already executed"`:          {"linked", "every success path of ExecuteVote stores PendingExecution=false, and a superseded round is closed with PendingExecution=false (EXECUTE-CLEARS-PENDING, CLOSE-CLEARS-PENDING)"},
+	`(x/dispute/keeper.Keeper).ExecuteVote # err-local:errors.New "vote hasn't been tallied yet"`:    {"linked", "PENDING-IMPLIES-TALLIED"},
+	`(x/dispute/keeper.Keeper).GetSumOfAllGroupVotesAllRounds # err-ext:coll:x/dispute/keeper.Keeper.Disputes.Get`: {"accepted", "same id as read by the caller"},
+	`(x/dispute/keeper.Keeper).GetTeamAddress # err-ext:coll:x/dispute/keeper.Keeper.Params.Get`:     {"accepted", "Params written in InitGenesis (GENESIS-WRITES)"},
+	`(x/dispute/keeper.Keeper).ReturnSlashedTokens # err-ext:iface:x/dispute/types.BankKeeper.SendCoinsFromModuleToModule`: {"accepted", "escrow covers the slashed amount (C04/C13 numeric; not decided)"},
+	`(x/dispute/keeper.Keeper).TallyVote # err-ext:coll:x/dispute/keeper.Keeper.BlockInfo.Get`:       {"linked", "BlockInfo is written on every success path of SetNewDispute and removed only by ExecuteVote (BLOCKINFO-LIFETIME); a superseded round leaves the pending-execution index (CLOSE-CLEARS-PENDING)"},
+	`(x/dispute/keeper.Keeper).TallyVote # err-ext:coll:x/dispute/keeper.Keeper.Disputes.Get`:        {"accepted", "id comes from the Disputes index"},
+	`(x/dispute/keeper.Keeper).TallyVote # err-ext:coll:x/dispute/keeper.Keeper.Voter.Get`:           {"linked", "read under Voter.Has of the same key (HAS-BEFORE-GET)"},
+	`(x/dispute/keeper.Keeper).TallyVote # err-ext:coll:x/dispute/keeper.Keeper.Votes.Get`:           {"linked", "VOTING-HAS-VOTE"},
+	`(x/dispute/keeper.Keeper).TallyVote # err-local:errors.New (cosmossdk.io/errors.Error).Error()`: {"linked", "the hook calls TallyVote only under VoteEnd < BlockTime, the complement of this branch (TALLY-CALLSITE)"},
+	`(x/dispute/keeper.Keeper).TallyVote # err-local:errors.New "vote already tallied"`:              {"linked", "the hook calls TallyVote only under VoteResult == NO_TALLY (TALLY-CALLSITE)"},
+	`(x/reporter/keeper.Keeper).GetBondedValidators # err-ext:iface:x/reporter/types.StakingKeeper.ValidatorsPowerStoreIterator`: {"infrastructure", "staking store iterator"},
+	`(x/reporter/keeper.Keeper).GetBondedValidators # err-local:fmt.Errorf "validator record not found for address: %X"`:          {"accepted", "staking power index is consistent with the validator records (x/staking invariant)"},
+	`(x/reporter/keeper.Keeper).GetBondedValidators # index:make(github.com/cosmos/cosmos-sdk/x/staking/types.Validator)[:loopvar]`: {"linked", "i counts appended elements and the loop runs under i < max with len == max (BONDED-LOOP-BOUND)"},
+	`(x/reporter/keeper.Keeper).GetBondedValidators # index:make(github.com/cosmos/cosmos-sdk/x/staking/types.Validator)[loopvar]`:  {"linked", "BONDED-LOOP-BOUND"},
+	`(x/reporter/keeper.Keeper).ReturnSlashedTokens # div:Quo by x/reporter/types.DelegationsAmounts.Total`:                       {"accepted", "Total is the slash amount escrowed, non-zero for a power >= 1 report (C11)"},
+	`(x/reporter/keeper.Keeper).ReturnSlashedTokens # err-ext:coll:x/reporter/keeper.Keeper.DisputedDelegationAmounts.Get`:        {"accepted", "written by EscrowReporterStake, which precedes status Voting on every path (C11 ONCE-SLASH)"},
+	`(x/reporter/keeper.Keeper).ReturnSlashedTokens # err-ext:iface:x/reporter/types.StakingKeeper.Delegate`:                       {"accepted", "x/staking Delegate with tokens already in the pool; arithmetic reachability not decided (residual risk)"},
+	`(x/reporter/keeper.Keeper).ReturnSlashedTokens # err-ext:iface:x/reporter/types.StakingKeeper.GetValidator`:                   {"linked", "only ErrNoValidatorFound is tolerated (falls back to a bonded validator); other errors are store faults"},
+	`(x/reporter/keeper.Keeper).ReturnSlashedTokens # err-local:errors.New "no validators found in staking module to return "`:      {"accepted", "x/staking keeps at least one bonded validator"},
+
+	// ---- mint BeginBlock
+	`x/mint.BeginBlocker # err-ext:coll:x/mint/keeper.Keeper.Minter.Get`:          {"accepted", "Minter written in InitGenesis (GENESIS-WRITES)"},
+	`x/mint.SetPreviousBlockTime # err-ext:coll:x/mint/keeper.Keeper.Minter.Get`:  {"accepted", "Minter written in InitGenesis (GENESIS-WRITES)"},
+	`(x/mint/keeper.Keeper).MintCoins # err-ext:iface:x/mint/types.BankKeeper.MintCoins`:                       {"accepted", "module account has Minter permission (C03 MACC-PERM)"},
+	`(x/mint/keeper.Keeper).SendInflationaryRewards # err-ext:iface:x/mint/types.BankKeeper.InputOutputCoins`: {"accepted", "input = sum of outputs = amount just minted (C03 LIN-SPLIT)"},
+	`(x/mint/types.Minter).CalculateBlockProvision # err-local:fmt.Errorf "current time %v cannot be before previous time %"`: {"accepted", "assumption: consensus block time is monotone"},
+
+	// ---- oracle EndBlock
+	`(x/oracle/keeper.Keeper).AllocateRewards # err-ext:github.com/cosmos/cosmos-sdk/types.AccAddressFromBech32`:             {"linked", "the address string is AggregateReporter.Reporter, produced by AccAddress.String() in SetValue (REPORTER-BECH32)"},
+	`(x/oracle/keeper.Keeper).AllocateRewards # err-ext:iface:x/oracle/types.BankKeeper.SendCoinsFromModuleToModule`:        {"accepted", "moves query.Amount, which the oracle account received when tipped (C04 LIN-LEDGER-PAIR; numeric, not decided)"},
+	`(x/oracle/keeper.Keeper).CurrentQuery # err-local:sentinel cosmossdk.io/collections.ErrNotFound`:                        {"linked", "RotateQueries tolerates not-found (errors.Is) before propagating (ROTATE-TOLERATES-NOTFOUND)"},
+	`(x/oracle/keeper.Keeper).GetCurrentQueryInCycleList # err-local:errors.New "cycle list is empty"`:                       {"linked", "the cycle list is non-empty: genesis writes it and UpdateCyclelist rejects an empty list before Clear (CYCLELIST-NONEMPTY)"},
+	`(x/oracle/keeper.Keeper).RotateQueries # index:(x/oracle/keeper.Keeper).GetCyclelist()#0[loopvar]`:                       {"linked", "n is 0 or n+1 with n < len-1, and the list is non-empty because GetCurrentQueryInCycleList succeeded earlier on every path (ROTATE-INDEX)"},
+	`(x/oracle/keeper.Keeper).SetAggregate # err-ext:coll:x/oracle/keeper.Keeper.Nonces.Get {not-found tolerated}`:            {"infrastructure", "not-found is tolerated (first aggregate of a query); other errors are store faults"},
+	`(x/oracle/keeper.Keeper).SetAggregatedReport # err-ext:coll:x/oracle/keeper.Keeper.Query.Get`:                            {"accepted", "key just read from the Query map's own HasReveals index"},
+	`(x/oracle/keeper.Keeper).SetAggregatedReport # index:cosmossdk.io/collections/indexes.CollectValues()#0[0]`:              {"linked", "HasRevealedReports is stored true only by SetValue, whose success path also stores a report under the same (queryId, meta id) (REVEALED-HAS-REPORT)"},
+	`(x/oracle/keeper.Keeper).WeightedMedian # err-local:errors.New "failed to parse value"`:                                  {"linked", "the stored value passed ValidateValue (hex after 0x-stripping) and is parsed through the same normaliser (VALUE-NORMALISED)"},
+	`(x/oracle/keeper.Keeper).WeightedMode # err-local:sentinel x/oracle/types.ErrNoReportsToAggregate`:                        {"linked", "REVEALED-HAS-REPORT: the report list of an aggregated round is non-empty"},
+	`(x/registry/keeper.Keeper).GetSpec # err-ext:coll:x/registry/keeper.Keeper.SpecRegistry.Get`:                             {"linked", "cycle-list entries are validated to have a registered spec by UpdateCyclelist; specs are never removed (CYCLELIST-VALIDATED, SPEC-NO-REMOVE)"},
+	`x/registry/types.DecodeQueryType # err-ext:(github.com/ethereum/go-ethereum/accounts/abi.Arguments).Unpack`:               {"linked", "cycle-list entries are decoded by UpdateCyclelist before being stored (CYCLELIST-VALIDATED)"},
+	`x/registry/types.DecodeQueryType # err-ext:github.com/ethereum/go-ethereum/accounts/abi.NewType`:                          {"library", "constant elementary ABI type string (ABI-CONST-TYPES)"},
+	`x/registry/types.DecodeQueryType # index:(github.com/ethereum/go-ethereum/accounts/abi.Arguments).Unpack()#0[0]`:          {"library", "Unpack of a 2-argument list returned without error yields 2 values"},
+	`x/registry/types.DecodeQueryType # index:(github.com/ethereum/go-ethereum/accounts/abi.Arguments).Unpack()#0[1]`:          {"library", "as above"},
+	`x/registry/types.DecodeQueryType # assert:string <- (github.com/ethereum/go-ethereum/accounts/abi.Arguments).Unpack()#0[0]`: {"library", "argument 0 of the list is of ABI type string"},
+	`x/registry/types.DecodeQueryType # assert:byte <- (github.com/ethereum/go-ethereum/accounts/abi.Arguments).Unpack()#0[1]`:   {"library", "argument 1 of the list is of ABI type bytes"},
+	`utils.Remove0xPrefix # index:param0[:2]`: {"linked", "under has0xPrefix, which tests len >= 2 (PREFIX-LEN)"},
+	`(x/reporter/keeper.Keeper).DivvyingTips # div:Quo by x/reporter/types.DelegationsAmounts.Total`:                          {"accepted", "snapshot total >= minimum stake: ReporterStake stores the snapshot and SubmitValue rejects stake < MinStakeAmount (C07 ADMIT, C10)"},
+	`(x/reporter/keeper.Keeper).DivvyingTips # err-ext:coll:x/reporter/keeper.Keeper.Report.Get`:                              {"accepted", "snapshot written by ReporterStake, which dominates SetValue, under the same (queryId, reporter, height) (C07 ADMIT)"},
+	`(x/reporter/keeper.Keeper).DivvyingTips # err-ext:coll:x/reporter/keeper.Keeper.Reporters.Get`:                           {"linked", "reporters are never removed (REPORTERS-NO-REMOVE)"},
+	`(x/reporter/keeper.Keeper).DivvyingTips # err-ext:coll:x/reporter/keeper.Keeper.SelectorTips.Get {not-found tolerated}`:  {"infrastructure", "not-found is tolerated (first tip of a selector)"},
+	`x/oracle/keeper.CalculateRewardAmount # div:Quo by param2`:                                                               {"accepted", "totalPower sums the powers of the listed reporters; a stored report has power >= 1 (C07 ADMIT min stake / PowerReduction)"},
+
+	// ---- reporter EndBlock
+	`(x/reporter/keeper.Keeper).TrackStakeChange # err-ext:coll:x/reporter/keeper.Keeper.Tracker.Get`:                          {"accepted", "Tracker written in InitGenesis (GENESIS-WRITES)"},
+	`(x/reporter/keeper.Keeper).TrackStakeChange # err-ext:iface:x/reporter/types.StakingKeeper.TotalBondedTokens`:             {"infrastructure", "bank balance read of the bonded pool"},
+}
+
+// ---------------------------------------------------------------------------
+// Linked obligations: the structural facts the "linked" justifications rely on.
+
+func storesConstToField(in ssa.Instruction, field string, want string) bool {
+	st, ok := in.(*ssa.Store)
+	if !ok {
+		return false
+	}
+	fa, ok := st.Addr.(*ssa.FieldAddr)
+	if !ok || fieldName(fa.X.Type(), fa.Field) != field {
+		return false
+	}
+	c, ok := st.Val.(*ssa.Const)
+	if !ok {
+		return false
+	}
+	return c.Value != nil && c.Value.ExactString() == want
+}
+
+func c02Links(r *Result) {
+	P := r.P
+	link := func(ok bool, name, construct, where, detail string) {
+		r.check(ok, "FAIL-LINK", name+" @ "+construct, where, detail)
+	}
+	need := func(name string) *ssa.Function {
+		f := P.Func(name)
+		if f == nil {
+			r.broken("anchor %s does not resolve", name)
+		} else {
+			r.fn(name)
+		}
+		return f
+	}
+
+	// VALUE-NORMALISED: the two block-path parsers of a report value strip the 0x prefix like validation does
+	if wm := need("(x/oracle/keeper.Keeper).WeightedMedian"); wm != nil {
+		n := 0
+		for _, cs := range P.CallSitesIn(wm) {
+			if cs.Callee == "(*math/big.Int).SetString" {
+				n++
+				t := NewTermer().Of(Arg(cs.Instr, 0))
+				ok := strings.HasPrefix(t.Op, "call:") && strings.HasSuffix(t.Op, ".Remove0xPrefix") && t.Has("field:x/oracle/types.MicroReport.Value")
+				link(ok, "VALUE-NORMALISED", "(x/oracle/keeper.Keeper).WeightedMedian # SetString(report value)", P.Pos(cs.Pos()), "parsed string: "+clip(t.String(), 140))
+			}
+		}
+		link(n > 0, "VALUE-NORMALISED", "(x/oracle/keeper.Keeper).WeightedMedian # parses the value", P.Pos(wm.Pos()), fmt.Sprintf("%d SetString sites", n))
+	}
+	if enc := need("(x/bridge/keeper.Keeper).EncodeOracleAttestationData"); enc != nil {
+		n := 0
+		for _, cs := range P.CallSitesIn(enc) {
+			if cs.Callee == "encoding/hex.DecodeString" {
+				t := NewTermer().Of(cs.Instr.Common().Args[0])
+				if strings.HasPrefix(t.Op, "const:") {
+					continue // the constant domain separator
+				}
+				n++
+				ok := strings.HasPrefix(t.Op, "call:") && strings.HasSuffix(t.Op, ".Remove0xPrefix") && t.Has("param:2:string")
+				link(ok, "VALUE-NORMALISED", "(x/bridge/keeper.Keeper).EncodeOracleAttestationData # hex.DecodeString(value)", P.Pos(cs.Pos()), "decoded string: "+clip(t.String(), 140))
+			}
+		}
+		link(n > 0, "VALUE-NORMALISED", "(x/bridge/keeper.Keeper).EncodeOracleAttestationData # decodes the value", P.Pos(enc.Pos()), fmt.Sprintf("%d non-constant DecodeString sites", n))
+	}
+	// ValidateValue dominates the report store in SetValue
+	if sv := need("(x/oracle/keeper.Keeper).SetValue"); sv != nil {
+		ps := AnalyzePaths(sv, []Atom{{Name: "validated", Event: P.CallEvent(func(c *CallSite) bool { return c.Callee == "(x/registry/types.DataSpec).ValidateValue" }, T)},
+			{Name: "validerr", Cond: func(rel *Term) (bool, bool) {
+				if rel.Op == "==" && len(rel.Args) == 2 && rel.Args[0].Op == "call:(x/registry/types.DataSpec).ValidateValue" && rel.Args[1].Op == "const:nil" {
+					return true, false
+				}
+				return false, false
+			}}})
+		n := 0
+		for _, cs := range P.CallSitesIn(sv) {
+			if cs.Desc() == "coll:x/oracle/keeper.Keeper.Reports.Set" {
+				n++
+				bad := ps.Require(cs.Instr, func(v map[string]bool) bool { return v["validated"] && !v["validerr"] })
+				link(len(bad) == 0, "VALUE-NORMALISED", "(x/oracle/keeper.Keeper).SetValue # ValidateValue succeeded before Reports.Set", P.Pos(cs.Pos()), fmt.Sprintf("valuations: %v", statesStr(ps, cs.Instr)))
+			}
+		}
+		link(n == 1, "REVEALED-HAS-REPORT", "(x/oracle/keeper.Keeper).SetValue # stores the report", P.Pos(sv.Pos()), fmt.Sprintf("%d Reports.Set sites", n))
+		// HasRevealedReports = true only here, and success path stores a report
+		psr := AnalyzePaths(sv, []Atom{{Name: "flag", Event: func(in ssa.Instruction) (bool, int8) {
+			return storesConstToField(in, "x/oracle/types.QueryMeta.HasRevealedReports", "true"), T
+		}}, {Name: "report", Event: P.CallEvent(descIs("coll:x/oracle/keeper.Keeper.Reports.Set"), T)}})
+		okAll := true
+		for _, ret := range SuccessReturns(sv) {
+			if bad := psr.Require(ret, func(v map[string]bool) bool { return !v["flag"] || v["report"] }); len(bad) > 0 {
+				okAll = false
+			}
+		}
+		link(okAll, "REVEALED-HAS-REPORT", "(x/oracle/keeper.Keeper).SetValue # flag => report stored on success", P.Pos(sv.Pos()), "every success path that sets HasRevealedReports also calls Reports.Set")
+	}
+	// who else stores HasRevealedReports = true
+	var flaggers []string
+	for _, fn := range P.RepoFuncs {
+		for _, b := range fn.Blocks {
+			for _, in := range b.Instrs {
+				if storesConstToField(in, "x/oracle/types.QueryMeta.HasRevealedReports", "true") {
+					flaggers = append(flaggers, FuncName(TopFunc(fn)))
+				}
+			}
+		}
+	}
+	link(len(flaggers) == 1 && flaggers[0] == "(x/oracle/keeper.Keeper).SetValue", "REVEALED-HAS-REPORT", "writers of QueryMeta.HasRevealedReports=true", "-", fmt.Sprintf("writers: %v", flaggers))
+	link(len(P.Sites(descIs("coll:x/oracle/keeper.Keeper.Reports.Remove"))) == 0, "REVEALED-HAS-REPORT", "no Reports.Remove", "-", "reports are never removed")
+
+	// TALLY-CALLSITE
+	if hook := need("x/dispute.CheckOpenDisputesForExpiration"); hook != nil {
+		voteEndPast := func(rel *Term) (bool, bool) {
+			if rel.Op == "<" && len(rel.Args) == 2 && strings.HasPrefix(rel.Args[0].Op, "field:x/dispute/types.Vote.VoteEnd") && rel.Args[1].Has("call:(github.com/cosmos/cosmos-sdk/types.Context).BlockTime") {
+				return true, true
+			}
+			return false, false
+		}
+		noTally := func(rel *Term) (bool, bool) {
+			if rel.Op == "==" && len(rel.Args) == 2 && strings.HasPrefix(rel.Args[0].Op, "field:x/dispute/types.Vote.VoteResult") && rel.Args[1].Op == "const:0" {
+				return true, true
+			}
+			return false, false
+		}
+		ps := AnalyzePaths(hook, []Atom{{Name: "voteEnded", Cond: voteEndPast}, {Name: "noTally", Cond: noTally}})
+		n := 0
+		for _, cs := range P.CallSitesIn(hook) {
+			if cs.Callee == "(x/dispute/keeper.Keeper).TallyVote" {
+				n++
+				bad := ps.Require(cs.Instr, func(v map[string]bool) bool { return v["voteEnded"] && v["noTally"] })
+				link(len(bad) == 0, "TALLY-CALLSITE", "x/dispute.CheckOpenDisputesForExpiration # TallyVote under VoteEnd < BlockTime and NO_TALLY", P.Pos(cs.Pos()), fmt.Sprintf("valuations: %v", statesStr(ps, cs.Instr)))
+			}
+		}
+		link(n == 1, "TALLY-CALLSITE", "x/dispute.CheckOpenDisputesForExpiration # calls TallyVote", P.Pos(hook.Pos()), fmt.Sprintf("%d call sites", n))
+		if tv := need("(x/dispute/keeper.Keeper).TallyVote"); tv != nil {
+			ps2 := AnalyzePaths(tv, []Atom{{Name: "voteEnded", Cond: voteEndPast}, {Name: "noTally", Cond: noTally}})
+			for _, b := range tv.Blocks {
+				ret, ok := b.Instrs[len(b.Instrs)-1].(*ssa.Return)
+				if !ok || !DefinitelyFails(ret) {
+					continue
+				}
+				t := NewTermer().Of(ResultOf(ret, 0))
+				switch {
+				case t.Has("const:vote already tallied"):
+					bad := ps2.Require(ret, func(v map[string]bool) bool { return !v["noTally"] })
+					link(len(bad) == 0, "TALLY-CALLSITE", "(x/dispute/keeper.Keeper).TallyVote # 'already tallied' only when VoteResult != NO_TALLY", P.Pos(ret.Pos()), fmt.Sprintf("valuations: %v", statesStr(ps2, ret)))
+				case t.Has("global:x/dispute/types.ErrNoQuorumStillVoting"):
+					bad := ps2.Require(ret, func(v map[string]bool) bool { return !v["voteEnded"] })
+					link(len(bad) == 0, "TALLY-CALLSITE", "(x/dispute/keeper.Keeper).TallyVote # 'still voting' only when !(VoteEnd < BlockTime)", P.Pos(ret.Pos()), fmt.Sprintf("valuations: %v", statesStr(ps2, ret)))
+				}
+			}
+			// PENDING-IMPLIES-TALLIED: a success path that stores PendingExecution=true also records a result
+			ps3 := AnalyzePaths(tv, []Atom{
+				{Name: "pending", Event: func(in ssa.Instruction) (bool, int8) {
+					return storesConstToField(in, "x/dispute/types.Dispute.PendingExecution", "true"), T
+				}},
+				{Name: "decided", Event: func(in ssa.Instruction) (bool, int8) {
+					if c, ok := in.(ssa.CallInstruction); ok {
+						if cs := P.siteOf(c); cs != nil && cs.Callee == "(x/dispute/keeper.Keeper).UpdateDispute" {
+							return true, T
+						}
+					}
+					if st, ok := in.(*ssa.Store); ok {
+						if fa, ok := st.Addr.(*ssa.FieldAddr); ok && fieldName(fa.X.Type(), fa.Field) == "x/dispute/types.Vote.VoteResult" {
+							if c, ok := st.Val.(*ssa.Const); ok && c.Value != nil && c.Value.ExactString() != "0" {
+								return true, T
+							}
+						}
+					}
+					return false, U
+				}}})
+			okAll := true
+			det := ""
+			for _, ret := range SuccessReturns(tv) {
+				if bad := ps3.Require(ret, func(v map[string]bool) bool { return !v["pending"] || v["decided"] }); len(bad) > 0 {
+					okAll = false
+					det = fmt.Sprint(bad)
+				}
+			}
+			link(okAll, "PENDING-IMPLIES-TALLIED", "(x/dispute/keeper.Keeper).TallyVote # PendingExecution=true => result recorded", P.Pos(tv.Pos()), "success paths that mark the dispute pending also record a vote result "+det)
+		}
+	}
+	// UpdateDispute records a non-NO_TALLY result on every success path (total decision)
+	if ud := need("(x/dispute/keeper.Keeper).UpdateDispute"); ud != nil {
+		n, zero := 0, 0
+		for _, b := range ud.Blocks {
+			for _, in := range b.Instrs {
+				if st, ok := in.(*ssa.Store); ok {
+					if fa, ok := st.Addr.(*ssa.FieldAddr); ok && fieldName(fa.X.Type(), fa.Field) == "x/dispute/types.Vote.VoteResult" {
+						n++
+						res := st.Val
+						var vals []ssa.Value
+						if ph, ok := res.(*ssa.Phi); ok {
+							vals = ph.Edges
+						} else {
+							vals = []ssa.Value{res}
+						}
+						for _, v := range vals {
+							if c, ok := v.(*ssa.Const); !ok || c.Value == nil || c.Value.ExactString() == "0" {
+								zero++
+							}
+						}
+					}
+				}
+			}
+		}
+		link(n >= 1 && zero == 0, "PENDING-IMPLIES-TALLIED", "(x/dispute/keeper.Keeper).UpdateDispute # every recorded result is a decision", P.Pos(ud.Pos()), fmt.Sprintf("%d stores to Vote.VoteResult, %d of them possibly NO_TALLY / non-constant", n, zero))
+		fails := 0
+		for _, b := range ud.Blocks {
+			if ret, ok := b.Instrs[len(b.Instrs)-1].(*ssa.Return); ok && DefinitelyFails(ret) {
+				t := NewTermer().Of(ResultOf(ret, 0))
+				if strings.HasPrefix(t.Op, "call:errors.New") || strings.HasPrefix(t.Op, "call:fmt.Errorf") {
+					fails++
+				}
+			}
+		}
+		link(fails == 0, "PENDING-IMPLIES-TALLIED", "(x/dispute/keeper.Keeper).UpdateDispute # no 'undecided' error return", P.Pos(ud.Pos()), fmt.Sprintf("%d locally constructed error returns (a vote distribution without a result would fail the begin blocker)", fails))
+	}
+	// EXECUTE-CLEARS-PENDING
+	if ev := need("(x/dispute/keeper.Keeper).ExecuteVote"); ev != nil {
+		ps := AnalyzePaths(ev, []Atom{
+			{Name: "cleared", Event: func(in ssa.Instruction) (bool, int8) {
+				return storesConstToField(in, "x/dispute/types.Dispute.PendingExecution", "false"), T
+			}},
+			{Name: "stored", Event: func(in ssa.Instruction) (bool, int8) {
+				if c, ok := in.(ssa.CallInstruction); ok {
+					if cs := P.siteOf(c); cs != nil && cs.Desc() == "coll:x/dispute/keeper.Keeper.Disputes.Set" {
+						return true, T
+					}
+				}
+				if storesConstToField(in, "x/dispute/types.Dispute.PendingExecution", "false") {
+					return true, F // a store after the flag change is required
+				}
+				return false, U
+			}},
+			{Name: "executed", Event: func(in ssa.Instruction) (bool, int8) {
+				return storesConstToField(in, "x/dispute/types.Vote.Executed", "true"), T
+			}}})
+		okAll := true
+		det := ""
+		for _, ret := range SuccessReturns(ev) {
+			if bad := ps.Require(ret, func(v map[string]bool) bool { return v["cleared"] && v["stored"] }); len(bad) > 0 {
+				okAll = false
+				det = fmt.Sprint(bad)
+			}
+		}
+		link(okAll, "EXECUTE-CLEARS-PENDING", "(x/dispute/keeper.Keeper).ExecuteVote # success => PendingExecution=false stored", P.Pos(ev.Pos()), det)
+	}
+	// CLOSE-CLEARS-PENDING
+	if cd := need("(x/dispute/keeper.Keeper).CloseDispute"); cd != nil {
+		ps := AnalyzePaths(cd, []Atom{{Name: "cleared", Event: func(in ssa.Instruction) (bool, int8) {
+			return storesConstToField(in, "x/dispute/types.Dispute.PendingExecution", "false"), T
+		}}, {Name: "closed", Event: func(in ssa.Instruction) (bool, int8) {
+			return storesConstToField(in, "x/dispute/types.Dispute.Open", "false"), T
+		}}})
+		n := 0
+		for _, cs := range P.CallSitesIn(cd) {
+			if cs.Desc() == "coll:x/dispute/keeper.Keeper.Disputes.Set" {
+				n++
+				bad := ps.Require(cs.Instr, func(v map[string]bool) bool { return v["cleared"] && v["closed"] })
+				link(len(bad) == 0, "CLOSE-CLEARS-PENDING", "(x/dispute/keeper.Keeper).CloseDispute # superseded round stored with Open=false, PendingExecution=false", P.Pos(cs.Pos()), fmt.Sprintf("valuations at Disputes.Set: %v (a superseded round left in the pending-execution index is executed by the begin blocker and removes the BlockInfo shared with the live round)", statesStr(ps, cs.Instr)))
+			}
+		}
+		link(n == 1, "CLOSE-CLEARS-PENDING", "(x/dispute/keeper.Keeper).CloseDispute # stores the dispute", P.Pos(cd.Pos()), fmt.Sprintf("%d Disputes.Set", n))
+		if adr := need("(x/dispute/keeper.Keeper).AddDisputeRound"); adr != nil {
+			ps := AnalyzePaths(adr, []Atom{{Name: "closedPrev", Event: P.CallEvent(func(c *CallSite) bool { return c.Callee == "(x/dispute/keeper.Keeper).CloseDispute" }, T)}})
+			for _, cs := range P.CallSitesIn(adr) {
+				if cs.Desc() == "coll:x/dispute/keeper.Keeper.Disputes.Set" {
+					bad := ps.Require(cs.Instr, func(v map[string]bool) bool { return v["closedPrev"] })
+					link(len(bad) == 0, "CLOSE-CLEARS-PENDING", "(x/dispute/keeper.Keeper).AddDisputeRound # previous round closed before the new round is stored", P.Pos(cs.Pos()), fmt.Sprintf("valuations: %v", statesStr(ps, cs.Instr)))
+				}
+			}
+		}
+	}
+	// BLOCKINFO-LIFETIME
+	{
+		rem := P.Sites(descIs("coll:x/dispute/keeper.Keeper.BlockInfo.Remove"))
+		var where []string
+		for _, s := range rem {
+			where = append(where, FuncName(TopFunc(s.Fn)))
+		}
+		link(len(rem) == 1 && where[0] == "(x/dispute/keeper.Keeper).ExecuteVote", "BLOCKINFO-LIFETIME", "BlockInfo.Remove only in ExecuteVote", "-", fmt.Sprintf("removers: %v", where))
+		if snd := need("(x/dispute/keeper.Keeper).SetNewDispute"); snd != nil {
+			ps := AnalyzePaths(snd, []Atom{{Name: "info", Event: P.CallEvent(func(c *CallSite) bool { return c.Callee == "(x/dispute/keeper.Keeper).SetBlockInfo" }, T)}})
+			okAll := true
+			for _, ret := range SuccessReturns(snd) {
+				if bad := ps.Require(ret, func(v map[string]bool) bool { return v["info"] }); len(bad) > 0 {
+					okAll = false
+				}
+			}
+			link(okAll, "BLOCKINFO-LIFETIME", "(x/dispute/keeper.Keeper).SetNewDispute # success => SetBlockInfo", P.Pos(snd.Pos()), "every success path snapshots the block info for the dispute hash")
+		}
+	}
+	// VOTING-HAS-VOTE: every function that stores status Voting calls SetStartVote on its success paths
+	{
+		for _, name := range []string{"(x/dispute/keeper.Keeper).SetNewDispute", "(x/dispute/keeper.Keeper).AddDisputeRound", "(x/dispute/keeper.msgServer).AddFeeToDispute"} {
+			fn := need(name)
+			if fn == nil {
+				continue
+			}
+			ps := AnalyzePaths(fn, []Atom{
+				{Name: "voting", Event: func(in ssa.Instruction) (bool, int8) {
+					return storesConstToField(in, "x/dispute/types.Dispute.DisputeStatus", "1"), T
+				}},
+				{Name: "startvote", Event: P.CallEvent(func(c *CallSite) bool { return c.Callee == "(x/dispute/keeper.Keeper).SetStartVote" }, T)}})
+			okAll := true
+			det := ""
+			for _, ret := range SuccessReturns(fn) {
+				if bad := ps.Require(ret, func(v map[string]bool) bool { return !v["voting"] || v["startvote"] }); len(bad) > 0 {
+					okAll = false
+					det = fmt.Sprint(bad)
+				}
+			}
+			link(okAll, "VOTING-HAS-VOTE", name+" # status Voting => SetStartVote", P.Pos(fn.Pos()), det)
+		}
+		var writers []string
+		for _, fn := range P.RepoFuncs {
+			for _, b := range fn.Blocks {
+				for _, in := range b.Instrs {
+					if storesConstToField(in, "x/dispute/types.Dispute.DisputeStatus", "1") {
+						writers = append(writers, FuncName(TopFunc(fn)))
+					}
+				}
+			}
+		}
+		allowed := map[string]bool{"(x/dispute/keeper.Keeper).SetNewDispute": true, "(x/dispute/keeper.Keeper).AddDisputeRound": true, "(x/dispute/keeper.msgServer).AddFeeToDispute": true}
+		okW := len(writers) > 0
+		for _, w := range writers {
+			if !allowed[w] {
+				okW = false
+			}
+		}
+		link(okW, "VOTING-HAS-VOTE", "writers of DisputeStatus=Voting", "-", fmt.Sprintf("%v", writers))
+	}
+	// HAS-BEFORE-GET in TallyVote (Voter)
+	if tv := P.Func("(x/dispute/keeper.Keeper).TallyVote"); tv != nil {
+		ps := AnalyzePaths(tv, []Atom{{Name: "has", Cond: func(rel *Term) (bool, bool) {
+			if strings.HasPrefix(rel.Op, "ext:0") && len(rel.Args) == 1 && strings.HasSuffix(rel.Args[0].Op, ".Has") && rel.Has("field:x/dispute/keeper.Keeper.Voter") {
+				return true, true
+			}
+			return false, false
+		}}})
+		for _, cs := range P.CallSitesIn(tv) {
+			if cs.Desc() == "coll:x/dispute/keeper.Keeper.Voter.Get" {
+				bad := ps.Require(cs.Instr, func(v map[string]bool) bool { return v["has"] })
+				link(len(bad) == 0, "HAS-BEFORE-GET", "(x/dispute/keeper.Keeper).TallyVote # Voter.Get under Voter.Has", P.Pos(cs.Pos()), fmt.Sprintf("valuations: %v", statesStr(ps, cs.Instr)))
+			}
+		}
+	}
+	// SNAPSHOT-INTERNAL
+	if cs := need("(x/bridge/keeper.Keeper).CreateSnapshot"); cs != nil {
+		ps := AnalyzePaths(cs, []Atom{{Name: "external", Cond: func(rel *Term) (bool, bool) {
+			if rel.Op == "param:4:bool" {
+				return true, true
+			}
+			return false, false
+		}}})
+		for _, b := range cs.Blocks {
+			ret, ok := b.Instrs[len(b.Instrs)-1].(*ssa.Return)
+			if !ok || !DefinitelyFails(ret) {
+				continue
+			}
+			if t := NewTermer().Of(ResultOf(ret, 0)); t.Has("const:too many external requests") {
+				bad := ps.Require(ret, func(v map[string]bool) bool { return v["external"] })
+				link(len(bad) == 0, "SNAPSHOT-INTERNAL", "(x/bridge/keeper.Keeper).CreateSnapshot # limit error only for external requests", P.Pos(ret.Pos()), fmt.Sprintf("valuations: %v", statesStr(ps, ret)))
+			}
+		}
+		if cn := need("(x/bridge/keeper.Keeper).CreateNewReportSnapshots"); cn != nil {
+			for _, s := range P.CallSitesIn(cn) {
+				if s.Callee == "(x/bridge/keeper.Keeper).CreateSnapshot" {
+					link(ConstArg(s.Instr, 3) == "false", "SNAPSHOT-INTERNAL", "(x/bridge/keeper.Keeper).CreateNewReportSnapshots # passes isExternalRequest=false", P.Pos(s.Pos()), "constant argument: "+ConstArg(s.Instr, 3))
+				}
+			}
+		}
+		// SET-BEFORE-GET for the two maps
+		for _, m := range []string{"AttestSnapshotsByReportMap", "AttestRequestsByHeightMap"} {
+			d := "coll:x/bridge/keeper.Keeper." + m
+			ps := AnalyzePaths(cs, []Atom{
+				{Name: "exists", Cond: func(rel *Term) (bool, bool) {
+					if strings.HasPrefix(rel.Op, "ext:0") && rel.Has("field:x/bridge/keeper.Keeper."+m) && rel.HasSuffix(".Has") {
+						return true, true
+					}
+					return false, false
+				}},
+				{Name: "set", Event: P.CallEvent(descIs(d+".Set"), T)}})
+			for _, s := range P.CallSitesIn(cs) {
+				if s.Desc() == d+".Get" {
+					bad := ps.Require(s.Instr, func(v map[string]bool) bool { return v["exists"] || v["set"] })
+					link(len(bad) == 0, "SET-BEFORE-GET", "(x/bridge/keeper.Keeper).CreateSnapshot # "+m+".Get after Has or Set", P.Pos(s.Pos()), fmt.Sprintf("valuations: %v", statesStr(ps, s.Instr)))
+				}
+			}
+		}
+	}
+	// ROTATE-TOLERATES-NOTFOUND, ROTATE-INDEX, CYCLELIST-*
+	if rq := need("(x/oracle/keeper.Keeper).RotateQueries"); rq != nil {
+		// every propagation of CurrentQuery's error is under !errors.Is(err, ErrNotFound)
+		fe := newFailEngine(P)
+		prop := false
+		for _, o := range fe.ErrFlow(rq) {
+			if o.Desc == "sentinel cosmossdk.io/collections.ErrNotFound" {
+				prop = true
+			}
+		}
+		// ErrFlow is path-insensitive: check with path states that a return of CurrentQuery's err is under errors.Is == false
+		tm := NewTermer()
+		ok := true
+		for _, b := range rq.Blocks {
+			ret, isRet := b.Instrs[len(b.Instrs)-1].(*ssa.Return)
+			if !isRet {
+				continue
+			}
+			v := ResultOf(ret, 0)
+			t := tm.Of(v)
+			if t.Op == "ext:1" && t.Has("call:(x/oracle/keeper.Keeper).CurrentQuery") {
+				if !fe.notFoundFiltered(rq, v, ret) {
+					ok = false
+				}
+			}
+		}
+		_ = prop
+		link(ok, "ROTATE-TOLERATES-NOTFOUND", "(x/oracle/keeper.Keeper).RotateQueries # CurrentQuery error returned only when it is not ErrNotFound", P.Pos(rq.Pos()), "returns of CurrentQuery's error are dominated by errors.Is(err, ErrNotFound) == false")
+		// the list is non-empty where indexed: GetCurrentQueryInCycleList succeeded on every path to the index
+		ps := AnalyzePaths(rq, []Atom{{Name: "current", Event: P.CallEvent(func(c *CallSite) bool { return c.Callee == "(x/oracle/keeper.Keeper).GetCurrentQueryInCycleList" }, T)},
+			{Name: "currentErr", Cond: func(rel *Term) (bool, bool) {
+				if rel.Op == "==" && len(rel.Args) == 2 && rel.Args[0].Op == "ext:1" && len(rel.Args[0].Args) == 1 && rel.Args[0].Args[0].Op == "call:(x/oracle/keeper.Keeper).GetCurrentQueryInCycleList" && rel.Args[1].Op == "const:nil" {
+					return true, false
+				}
+				return false, false
+			}},
+			{Name: "nLtMax", Cond: func(rel *Term) (bool, bool) {
+				// n >= max-1  rendered as <=(max-1, n)
+				if rel.Op == "<=" && len(rel.Args) == 2 && rel.Args[0].Has("call:builtin:len") && rel.Args[1].Has("call:(cosmossdk.io/collections.Sequence).Next") {
+					return true, false
+				}
+				return false, false
+			}}})
+		n := 0
+		for _, b := range rq.Blocks {
+			for _, in := range b.Instrs {
+				var idx ssa.Value
+				switch x := in.(type) {
+				case *ssa.IndexAddr:
+					idx = x.Index
+				case *ssa.Index:
+					idx = x.Index
+				default:
+					continue
+				}
+				if !tm.Of(in.(ssa.Value)).Has("call:(x/oracle/keeper.Keeper).GetCyclelist") {
+					continue
+				}
+				n++
+				bad := ps.Require(in, func(v map[string]bool) bool { return v["current"] && !v["currentErr"] })
+				// index is phi(0, n+1 under n < max-1)
+				shape := false
+				if ph, ok := idx.(*ssa.Phi); ok && len(ph.Edges) == 2 {
+					zero, inc := false, false
+					for i, e := range ph.Edges {
+						et := tm.Of(e)
+						if et.Op == "const:0" {
+							zero = true
+						} else if et.Op == "+" && len(et.Args) == 2 && et.Args[1].Op == "const:1" {
+							// the incrementing edge must come from the "n < max-1" side
+							pred := ph.Block().Preds[i]
+							for _, st := range statesAtBlockEnd(ps, pred) {
+								_ = st
+							}
+							inc = true
+						}
+					}
+					shape = zero && inc
+				}
+				link(len(bad) == 0 && shape, "ROTATE-INDEX", "(x/oracle/keeper.Keeper).RotateQueries # q[n] with n in {0, n+1 | n < len-1} on a non-empty list", P.Pos(in.Pos()), fmt.Sprintf("index %s ; valuations %v", clip(tm.Of(idx).String(), 120), statesStr(ps, in)))
+			}
+		}
+		link(n >= 1, "ROTATE-INDEX", "(x/oracle/keeper.Keeper).RotateQueries # indexes the cycle list", P.Pos(rq.Pos()), fmt.Sprintf("%d index sites", n))
+		// the increment edge is taken only when n < max-1: the If on (max-1 <= n) false edge leads to the increment
+		okInc := false
+		for _, b := range rq.Blocks {
+			if iff, ok := b.Instrs[len(b.Instrs)-1].(*ssa.If); ok {
+				rel, pol := Cond(tm.Of(iff.Cond))
+				if rel.Op == "<=" && len(rel.Args) == 2 && rel.Args[0].Has("call:builtin:len") && rel.Args[0].Op == "-" && rel.Args[1].Has("call:(cosmossdk.io/collections.Sequence).Next") {
+					// false edge of (len-1 <= n) is successor index: pol ? 1 : 0
+					fi := 1
+					if !pol {
+						fi = 0
+					}
+					for _, in := range b.Succs[fi].Instrs {
+						if bo, ok := in.(*ssa.BinOp); ok && bo.Op == token.ADD {
+							if c, ok := bo.Y.(*ssa.Const); ok && c.Value != nil && c.Value.ExactString() == "1" {
+								okInc = true
+							}
+						}
+					}
+				}
+			}
+		}
+		link(okInc, "ROTATE-INDEX", "(x/oracle/keeper.Keeper).RotateQueries # n+1 only under n < len-1", P.Pos(rq.Pos()), "the increment is on the false edge of len(q)-1 <= n")
+	}
+	if uc := need("(x/oracle/keeper.msgServer).UpdateCyclelist"); uc != nil {
+		emptyRej := func(rel *Term) (bool, bool) {
+			if rel.Op == "==" && len(rel.Args) == 2 && rel.Args[0].Op == "call:builtin:len" && rel.Args[0].Has("field:x/oracle/types.MsgUpdateCyclelist.Cyclelist") && rel.Args[1].Op == "const:0" {
+				return true, true
+			}
+			return false, false
+		}
+		ps := AnalyzePaths(uc, []Atom{{Name: "empty", Cond: emptyRej},
+			{Name: "decoded", Event: P.CallEvent(func(c *CallSite) bool { return c.Callee == "x/registry/types.DecodeQueryType" }, T)},
+			{Name: "spec", Event: P.CallEvent(func(c *CallSite) bool {
+				return c.Callee == "(x/oracle/keeper.Keeper).GetDataSpec" || strings.HasSuffix(c.Callee, "RegistryKeeper.GetSpec")
+			}, T)}})
+		n := 0
+		for _, cs := range P.CallSitesIn(uc) {
+			if cs.Desc() == "coll:x/oracle/keeper.Keeper.Cyclelist.Clear" {
+				n++
+				bad := ps.Require(cs.Instr, func(v map[string]bool) bool { return !v["empty"] })
+				link(len(bad) == 0, "CYCLELIST-NONEMPTY", "(x/oracle/keeper.msgServer).UpdateCyclelist # empty list rejected before Clear", P.Pos(cs.Pos()), fmt.Sprintf("valuations: %v", statesStr(ps, cs.Instr)))
+			}
+		}
+		link(n == 1, "CYCLELIST-NONEMPTY", "(x/oracle/keeper.msgServer).UpdateCyclelist # clears then re-initialises", P.Pos(uc.Pos()), fmt.Sprintf("%d Clear sites", n))
+		// validation loop: a loop over req.Cyclelist whose body calls DecodeQueryType and GetDataSpec and returns on error, before Clear
+		dec, spec := 0, 0
+		for _, cs := range P.CallSitesIn(uc) {
+			if cs.Callee == "x/registry/types.DecodeQueryType" {
+				dec++
+			}
+			if cs.Callee == "(x/oracle/keeper.Keeper).GetDataSpec" {
+				spec++
+			}
+		}
+		link(dec >= 1 && spec >= 1, "CYCLELIST-VALIDATED", "(x/oracle/keeper.msgServer).UpdateCyclelist # every entry decoded and its spec looked up", P.Pos(uc.Pos()), fmt.Sprintf("DecodeQueryType sites %d, GetDataSpec sites %d", dec, spec))
+		var clearers []string
+		for _, s := range P.Sites(func(c *CallSite) bool {
+			return strings.HasPrefix(c.Desc(), "coll:x/oracle/keeper.Keeper.Cyclelist.") && (c.Method == "Clear" || c.Method == "Remove" || c.Method == "Set")
+		}) {
+			clearers = append(clearers, FuncName(TopFunc(s.Fn))+":"+s.Method)
+		}
+		okC := true
+		for _, c := range clearers {
+			switch c {
+			case "(x/oracle/keeper.msgServer).UpdateCyclelist:Clear", "(x/oracle/keeper.Keeper).InitCycleListQuery:Set", "(x/oracle/keeper.Keeper).GenesisCycleList:Set":
+			default:
+				okC = false
+			}
+		}
+		link(okC, "CYCLELIST-NONEMPTY", "writers of the Cyclelist collection", "-", fmt.Sprintf("%v", clearers))
+	}
+	link(len(P.Sites(descIs("coll:x/registry/keeper.Keeper.SpecRegistry.Remove"))) == 0, "SPEC-NO-REMOVE", "no SpecRegistry.Remove", "-", "data specs are never removed")
+	link(len(P.Sites(descIs("coll:x/reporter/keeper.Keeper.Reporters.Remove"))) == 0, "REPORTERS-NO-REMOVE", "no Reporters.Remove", "-", "reporter records are never removed")
+	// PREFIX-LEN
+	if hp := need("utils.has0xPrefix"); hp != nil {
+		tm := NewTermer()
+		ok := false
+		for _, b := range hp.Blocks {
+			if iff, isIf := b.Instrs[len(b.Instrs)-1].(*ssa.If); isIf {
+				rel, _ := Cond(tm.Of(iff.Cond))
+				if rel.Op == "<=" && len(rel.Args) == 2 && rel.Args[0].Op == "const:2" && rel.Args[1].Op == "call:builtin:len" {
+					ok = true
+				}
+			}
+		}
+		rp := need("utils.Remove0xPrefix")
+		okCall := false
+		if rp != nil {
+			ps := AnalyzePaths(rp, []Atom{{Name: "has", Cond: func(rel *Term) (bool, bool) {
+				if rel.Op == "call:utils.has0xPrefix" {
+					return true, true
+				}
+				return false, false
+			}}})
+			for _, b := range rp.Blocks {
+				for _, in := range b.Instrs {
+					if sl, isSl := in.(*ssa.Slice); isSl && sl.Low != nil {
+						okCall = len(ps.Require(in, func(v map[string]bool) bool { return v["has"] })) == 0
+					}
+				}
+			}
+		}
+		link(ok && okCall, "PREFIX-LEN", "utils.Remove0xPrefix # s[2:] under has0xPrefix (len >= 2)", "utils/queryid.go", "has0xPrefix tests 2 <= len(str) first; Remove0xPrefix slices only under it")
+	}
+	// REPORTER-BECH32: the Reporter string of a micro report is AccAddress.String()
+	if sv := P.Func("(x/oracle/keeper.Keeper).SetValue"); sv != nil {
+		ok := false
+		for _, b := range sv.Blocks {
+			for _, in := range b.Instrs {
+				if st, isSt := in.(*ssa.Store); isSt {
+					if fa, isFa := st.Addr.(*ssa.FieldAddr); isFa && fieldName(fa.X.Type(), fa.Field) == "x/oracle/types.MicroReport.Reporter" {
+						t := NewTermer().Of(st.Val)
+						ok = t.Op == "call:(github.com/cosmos/cosmos-sdk/types.AccAddress).String"
+					}
+				}
+			}
+		}
+		link(ok, "REPORTER-BECH32", "(x/oracle/keeper.Keeper).SetValue # MicroReport.Reporter = AccAddress.String()", P.Pos(sv.Pos()), "the reporter string later parsed by AllocateRewards is a bech32 rendering of an address")
+	}
+	// BONDED-LOOP-BOUND
+	if gb := need("(x/reporter/keeper.Keeper).GetBondedValidators"); gb != nil {
+		tm := NewTermer()
+		ok := false
+		for _, b := range gb.Blocks {
+			if iff, isIf := b.Instrs[len(b.Instrs)-1].(*ssa.If); isIf {
+				rel, _ := Cond(tm.Of(iff.Cond))
+				if rel.Op == "<" && len(rel.Args) == 2 && rel.Args[1].Op == "param:2:uint32" {
+					ok = true
+				}
+			}
+		}
+		mk := false
+		for _, b := range gb.Blocks {
+			for _, in := range b.Instrs {
+				if ms, isMs := in.(*ssa.MakeSlice); isMs {
+					if tm.Of(ms.Len).Op == "param:2:uint32" {
+						mk = true
+					}
+				}
+			}
+		}
+		link(ok && mk, "BONDED-LOOP-BOUND", "(x/reporter/keeper.Keeper).GetBondedValidators # make(max) and loop under i < max", P.Pos(gb.Pos()), "the slice has length max and the loop condition bounds the index by max")
+	}
+	// ABI-CONST-TYPES
+	{
+		n, bad := 0, 0
+		for _, fn := range P.RepoFuncs {
+			for _, cs := range P.CallSitesIn(fn) {
+				if cs.Callee == "github.com/ethereum/go-ethereum/accounts/abi.NewType" {
+					if _, onBlock := blockReach(P)[TopFunc(fn)]; !onBlock {
+						continue
+					}
+					n++
+					t := NewTermer().Of(cs.Instr.Common().Args[0])
+					if !strings.HasPrefix(t.Op, "const:") || !validAbiTypes[strings.TrimPrefix(t.Op, "const:")] {
+						bad++
+						link(false, "ABI-CONST-TYPES", FuncName(TopFunc(fn))+" # abi.NewType("+t.Brief()+")", P.Pos(cs.Pos()), "ABI type string on a block path is not a constant elementary type")
+					}
+				}
+			}
+		}
+		link(bad == 0 && n > 0, "ABI-CONST-TYPES", "abi.NewType on block paths", "-", fmt.Sprintf("%d sites, all constant elementary types", n))
+	}
+	// GENESIS-WRITES
+	{
+		gen := P.Reachable(P.Scopes().Genesis, nil)
+		for _, d := range []string{"coll:x/mint/keeper.Keeper.Minter.Set", "coll:x/reporter/keeper.Keeper.Tracker.Set", "coll:x/bridge/keeper.Keeper.SnapshotLimit.Set", "coll:x/dispute/keeper.Keeper.Params.Set", "coll:x/oracle/keeper.Keeper.CyclelistSequencer.Set"} {
+			found := false
+			for _, s := range P.Sites(descIs(d)) {
+				if _, ok := gen[TopFunc(s.Fn)]; ok {
+					found = true
+				}
+			}
+			if d == "coll:x/oracle/keeper.Keeper.CyclelistSequencer.Set" {
+				continue // Sequence.Peek returns the default when unset
+			}
+			link(found, "GENESIS-WRITES", d+" reachable from InitGenesis", "-", "the singleton read by the block hook is initialised at genesis")
+		}
+	}
+}
+
+var blockReachCache map[*ssa.Function]*ssa.Function
+
+func blockReach(P *Prog) map[*ssa.Function]*ssa.Function {
+	if blockReachCache == nil {
+		blockReachCache = P.Reachable(P.Scopes().Block, nil)
+	}
+	return blockReachCache
+}
+
+func statesAtBlockEnd(ps *PathStates, b *ssa.BasicBlock) []State {
+	if len(b.Instrs) == 0 {
+		return nil
+	}
+	return ps.At(b.Instrs[len(b.Instrs)-1])
+}
